@@ -934,3 +934,250 @@ fn verif_build_mini_scenarios()
     }
     for (k, n) in names.iter().enumerate() { println!("SUMMARY {}-mini cases={} disagreements={}", n, cases, bad[k]); }
 }
+
+/*  ---------------------------------------------------------------------------------------------------------------------------
+    RANDOM WORKSPACES (seeded, reproducible): rule graphs drawn from a pool of names that includes dot names, names that differ only by
+    leading dots, sub-directories and two-target rules with two command lines, and histories drawn from {build, build goal, clean, clean
+    goal, edit a source, tamper with / delete a target, reorder the words of a command in the rules file}.  The oracles are the
+    model-free ones of the mini scenarios (C01 against the real build() on a fresh file system with the same goal, C02, C05, C07, C08,
+    C09 incl. goal scope, C10, C18) plus C04: the number of reported failures is the number of missing leaves and of failing rules
+    that could start.  Bound: VERIF_RANDOM_CASES workspaces x one history of 6 steps each.
+    --------------------------------------------------------------------------------------------------------------------------- */
+struct Rng(u64);
+impl Rng
+{
+    fn next(&mut self) -> u64 { self.0 ^= self.0 << 13; self.0 ^= self.0 >> 7; self.0 ^= self.0 << 17; self.0 }
+    fn below(&mut self, n: usize) -> usize { (self.next() % (n as u64)) as usize }
+}
+#[derive(Clone, Debug)]
+struct RRule { targets: Vec<String>, sources: Vec<String>, cmds: Vec<Vec<String>>, fails: bool }
+#[derive(Clone, Debug)]
+enum ROp { Build, BuildGoal(String), Clean, CleanGoal(String), Edit(String, String), Tamper(String), Delete(String), Reorder(usize) }
+fn rrules_text(rules: &Vec<RRule>) -> String
+{
+    let mut out = String::new();
+    for r in rules.iter()
+    {
+        for t in r.targets.iter() { out.push_str(t); out.push('\n'); }
+        out.push_str(":\n");
+        for s in r.sources.iter() { out.push_str(s); out.push('\n'); }
+        out.push_str(":\n");
+        for (k, c) in r.cmds.iter().enumerate() { if k > 0 { out.push_str(";\n"); } for w in c.iter() { out.push_str(w); out.push('\n'); } }
+        out.push_str(":\n\n");
+    }
+    out
+}
+/*  the targets in the scope of a goal: the goal's rule and everything it needs, transitively */
+fn rscope(rules: &Vec<RRule>, goal: &str) -> Vec<String>
+{
+    let mut need : Vec<usize> = rules.iter().enumerate().filter(|(_, r)| r.targets.iter().any(|t| t == goal)).map(|(i, _)| i).collect();
+    let mut k = 0;
+    while k < need.len() { let r = &rules[need[k]]; for s in r.sources.iter() { if let Some(j) = rules.iter().position(|q| q.targets.contains(s)) { if !need.contains(&j) { need.push(j); } } } k += 1; }
+    need.iter().flat_map(|i| rules[*i].targets.clone()).collect()
+}
+/*  how many failures a build of `scope` must report: missing leaves, and failing rules all of whose needs can be met */
+fn rexpected_failures(rules: &Vec<RRule>, system: &FakeSystem, in_scope: &dyn Fn(&RRule) -> bool) -> usize
+{
+    let mut missing : BTreeSet<String> = BTreeSet::new();
+    let mut bad : Vec<bool> = vec![false; rules.len()];      /*  the rule fails or is cancelled */
+    let mut count = 0;
+    /*  rules are generated in dependency order */
+    for (i, r) in rules.iter().enumerate()
+    {
+        if !in_scope(r) { continue; }
+        let mut cancelled = false;
+        for s in r.sources.iter()
+        {
+            match rules.iter().position(|q| q.targets.contains(s))
+            {
+                Some(j) => if bad[j] { cancelled = true; },
+                None => if !system.is_file(s) { missing.insert(s.clone()); cancelled = true; },
+            }
+        }
+        if cancelled { bad[i] = true; } else if r.fails { bad[i] = true; count += 1; }
+    }
+    count + missing.len()
+}
+fn run_random(seed: u64, drop_table: bool, names: &[&'static str]) -> (Vec<bool>, Vec<Option<String>>, Vec<(String, String)>, String)
+{
+    let mut rng = Rng(seed.wrapping_mul(0x9E3779B97F4A7C15) | 1);
+    for _ in 0..4 { rng.next(); }
+    let target_pool = ["a.txt", ".a.txt", "b.txt", "..b.txt", "out/c.txt", "out/sub/d.txt", "out/.c.txt", "lib/libe.a", "e.a", "f"];
+    let leaf_pool = ["s1.txt", ".s1.txt", "s2.txt", "src/s3.txt", "src/.s3.txt"];
+    let contents = ["one\n", "two\n", "three\n", "\n", "one\ntwo\n"];
+    /*  the rule graph */
+    let nrules = 2 + rng.below(4);
+    let mut free : Vec<&str> = target_pool.to_vec();
+    let mut rules : Vec<RRule> = vec![];
+    for _ in 0..nrules
+    {
+        if free.len() < 2 { break; }
+        let two = rng.below(4) == 0;
+        let mut targets = vec![free.remove(rng.below(free.len())).to_string()];
+        if two { targets.push(free.remove(rng.below(free.len())).to_string()); }
+        let mut avail : Vec<String> = leaf_pool.iter().map(|s| s.to_string()).collect();
+        for r in rules.iter() { for t in r.targets.iter() { avail.push(t.clone()); } }
+        let ns = 1 + rng.below(3);
+        let mut sources : Vec<String> = vec![];
+        for _ in 0..ns { let s = avail[rng.below(avail.len())].clone(); if !sources.contains(&s) { sources.push(s); } }
+        let fails = rng.below(9) == 0;
+        let cmds : Vec<Vec<String>> =
+            if fails { vec![vec!["error".to_string()]] }
+            else
+            {
+                targets.iter().enumerate().map(|(k, t)|
+                {
+                    let mut c = vec!["mycat".to_string()];
+                    /*  the second target of a two-target rule gets its sources in reverse order (a different content, mostly) */
+                    if k == 0 { for s in sources.iter() { c.push(s.clone()); } } else { for s in sources.iter().rev() { c.push(s.clone()); } c.push(sources[0].clone()); }
+                    c.push(t.clone()); c
+                }).collect()
+            };
+        rules.push(RRule { targets, sources, cmds, fails });
+    }
+    let all_targets : Vec<String> = rules.iter().flat_map(|r| r.targets.clone()).collect();
+    let used_leaves : Vec<String> = { let mut v : Vec<String> = rules.iter().flat_map(|r| r.sources.clone()).filter(|s| !all_targets.contains(s)).collect(); v.sort(); v.dedup(); v };
+    /*  the history */
+    let mut ops : Vec<ROp> = vec![ROp::Build];
+    for _ in 0..5
+    {
+        let t = all_targets[rng.below(all_targets.len())].clone();
+        ops.push(match rng.below(12)
+        {
+            0 | 1 | 2 => ROp::Build,
+            3 => ROp::BuildGoal(t),
+            4 => ROp::Clean,
+            5 => ROp::CleanGoal(t),
+            6 | 7 | 8 => ROp::Edit(used_leaves[rng.below(used_leaves.len())].clone(), contents[rng.below(contents.len())].to_string()),
+            9 => ROp::Tamper(t),
+            10 => ROp::Delete(t),
+            _ => ROp::Reorder(rng.below(rules.len())),
+        });
+    }
+    if !matches!(ops.last(), Some(ROp::Build)) { ops.push(ROp::Build); }
+    let label = format!("seed {} rules {:?} history {:?}", seed, rules.iter().map(|r| format!("{:?}<-{:?}{}", r.targets, r.sources, if r.fails { " FAILS" } else { "" })).collect::<Vec<String>>(), ops);
+    /*  the workspace */
+    let mut system = FakeSystem::new(10);
+    for d in ["out", "out/sub", "lib", "src"].iter() { system.create_dir(d).unwrap(); }
+    for (k, l) in leaf_pool.iter().enumerate() { write_str_to_file(&mut system, l, &format!("leaf {} {}", k, contents[k % contents.len()])).unwrap(); }
+    write_str_to_file(&mut system, "build.rules", &rrules_text(&rules)).unwrap();
+    let tnames : Vec<&str> = all_targets.iter().map(|s| s.as_str()).collect();
+    let mut complaints : Vec<(String, String)> = vec![]; let mut verdicts = vec![];
+    let mut quiet_since_ok_build = false;
+    let _ = names;
+    for op in ops.iter()
+    {
+        system.time_passes(1);
+        let before = snapshot(&system);
+        let held_before = held_mini(&system, &tnames);
+        let log_before = system.get_command_log().len();
+        let mut is_ruler = false;
+        match op
+        {
+            ROp::Edit(p, c) => { write_str_to_file(&mut system, p, c).unwrap(); quiet_since_ok_build = false; },
+            ROp::Tamper(p) => { write_str_to_file(&mut system, p, "tampered\n").unwrap(); quiet_since_ok_build = false; },
+            ROp::Delete(p) => { if system.is_file(p) { system.remove_file(p).unwrap(); } quiet_since_ok_build = false; },
+            ROp::Reorder(k) =>
+            {
+                /*  the first command line of rule k gets its input words in reverse order (same words, another command) */
+                if !rules[*k].fails { let c = &mut rules[*k].cmds[0]; let n = c.len(); if n > 3 { c[1..n - 1].reverse(); } }
+                write_str_to_file(&mut system, "build.rules", &rrules_text(&rules)).unwrap(); quiet_since_ok_build = false;
+            },
+            ROp::Build | ROp::BuildGoal(_) =>
+            {
+                is_ruler = true;
+                if drop_table && system.is_file(".ruler/current_file_states") { system.remove_file(".ruler/current_file_states").unwrap(); }
+                let goal : Option<String> = match op { ROp::BuildGoal(g) => Some(g.clone()), _ => None };
+                let scope : Vec<String> = match &goal { Some(g) => rscope(&rules, g), None => all_targets.clone() };
+                let expected_failures = { let sc = scope.clone(); rexpected_failures(&rules, &system, &move |r: &RRule| r.targets.iter().any(|t| sc.contains(t))) };
+                let sys2 = system.clone(); let goal2 = goal.clone();
+                let result = match std::panic::catch_unwind(std::panic::AssertUnwindSafe(move || build(sys2, &mut EmptyPrinter::new(), BuildParams::from_all(".ruler".to_string(), vec!["build.rules".to_string()], None, goal2))))
+                {
+                    Ok(r) => r,
+                    Err(_) => { complaints.push(("B-build-C05".to_string(), "build() panicked".to_string())); verdicts.push(false); continue; },
+                };
+                let ok = result.is_ok();
+                verdicts.push(ok);
+                let ran = system.get_command_log()[log_before..].len();
+                let got = match &result { Err(crate::build::BuildError::WorkErrors(v)) => v.len(), Err(_) => usize::MAX, Ok(()) => 0 };
+                if got != usize::MAX && got != expected_failures { complaints.push(("B-build-C04".to_string(), format!("{} failure(s) reported, {} missing leaves / failing rules that could start", got, expected_failures))); }
+                if ok
+                {
+                    /*  C01: the same goal built by the real build() on a fresh file system holding the same non-target files */
+                    let after = snapshot(&system);
+                    let mut fresh = FakeSystem::new(10);
+                    for d in after.1.iter() { fresh.create_dir(d).unwrap(); }
+                    for (p, (c, _, _)) in after.0.iter() { if !all_targets.contains(p) { write_str_to_file(&mut fresh, p, c).unwrap(); } }
+                    fresh.time_passes(1);
+                    if build(fresh.clone(), &mut EmptyPrinter::new(), BuildParams::from_all(".ruler".to_string(), vec!["build.rules".to_string()], None, goal.clone())).is_ok()
+                    {
+                        for t in scope.iter() { if read(&system, t) != read(&fresh, t) { complaints.push(("B-build-C01".to_string(), format!("after a successful build {} holds {:?}, a from-scratch build of the same sources gives {:?}", t, read(&system, t), read(&fresh, t)))); } }
+                    }
+                    else { complaints.push(("B-build-C01".to_string(), "the build succeeded where a from-scratch build of the same files fails".to_string())); }
+                    let mut cs : Vec<Option<String>> = all_targets.iter().map(|t| read(&system, t)).collect(); let k = cs.len(); cs.sort(); cs.dedup();
+                    if goal.is_none() && quiet_since_ok_build && cs.len() == k && ran != 0 { complaints.push(("B-build-C02".to_string(), format!("{} command(s) ran in a build that follows a successful build (and possibly a clean) with nothing changed", ran))); }
+                }
+                quiet_since_ok_build = ok && goal.is_none();
+                if goal.is_some()
+                {
+                    let after = snapshot(&system);
+                    for t in all_targets.iter() { if !scope.contains(t) && after.0.get(t) != before.0.get(t) { complaints.push(("B-build-C09".to_string(), format!("{} is outside the scope of goal {:?} and was changed by the build", t, goal))); } }
+                }
+            },
+            ROp::Clean | ROp::CleanGoal(_) =>
+            {
+                is_ruler = true;
+                if drop_table && system.is_file(".ruler/current_file_states") { system.remove_file(".ruler/current_file_states").unwrap(); }
+                let goal : Option<String> = match op { ROp::CleanGoal(g) => Some(g.clone()), _ => None };
+                let scope : Vec<String> = match &goal { Some(g) => rscope(&rules, g), None => all_targets.clone() };
+                let sys2 = system.clone(); let goal2 = goal.clone();
+                let cleaned = match std::panic::catch_unwind(std::panic::AssertUnwindSafe(move || clean(sys2, ".ruler", vec!["build.rules".to_string()], goal2)))
+                {
+                    Ok(r) => r,
+                    Err(_) => { complaints.push(("B-build-C05".to_string(), "clean() panicked".to_string())); verdicts.push(false); continue; },
+                };
+                verdicts.push(cleaned.is_ok());
+                if cleaned.is_ok() { for t in scope.iter() { if system.is_file(t) { complaints.push(("B-build-C10".to_string(), format!("{} is still in the workspace after a clean that reported success", t))); } } }
+                else { quiet_since_ok_build = false; }
+                if goal.is_some()
+                {
+                    quiet_since_ok_build = false;
+                    let after = snapshot(&system);
+                    for t in all_targets.iter() { if !scope.contains(t) && after.0.get(t) != before.0.get(t) { complaints.push(("B-build-C09".to_string(), format!("{} is outside the scope of goal {:?} and was changed by the clean", t, goal))); } }
+                }
+            },
+        }
+        if is_ruler
+        {
+            let after = snapshot(&system);
+            for (p, st) in before.0.iter() { if !all_targets.contains(p) && after.0.get(p) != Some(st) { complaints.push(("B-build-C09".to_string(), format!("{} is not a target and was changed or removed by the invocation", p))); } }
+            for (p, _) in after.0.iter() { if !all_targets.contains(p) && !before.0.contains_key(p) { complaints.push(("B-build-C09".to_string(), format!("{} is not a target and was created by the invocation", p))); } }
+            if before.1 != after.1 { complaints.push(("B-build-C09".to_string(), format!("the directories outside the ruler directory were {:?} and are {:?} after the invocation", before.1, after.1))); }
+            if let Some(c) = cache_ok(&system) { complaints.push(("B-build-C07".to_string(), c)); }
+            let held_after = held_mini(&system, &tnames);
+            for c in held_before.iter() { if !held_after.contains(c) { complaints.push(("B-build-C08".to_string(), format!("content {:?} was held before the invocation and is gone", c))); } }
+        }
+    }
+    let finals = all_targets.iter().map(|t| read(&system, t)).collect();
+    (verdicts, finals, complaints, label)
+}
+
+#[test]
+fn verif_build_random()
+{
+    std::panic::set_hook(Box::new(|_| {}));
+    let n : u64 = std::env::var("VERIF_RANDOM_CASES").ok().and_then(|s| s.parse().ok()).unwrap_or_else(|| 150 * std::env::var("VERIF_HISTORY_LEN").ok().and_then(|s| s.parse::<u64>().ok()).unwrap_or(4));
+    let names = ["B-build-C01", "B-build-C02", "B-build-C04", "B-build-C05", "B-build-C07", "B-build-C08", "B-build-C09", "B-build-C10", "B-build-C18"];
+    let mut bad = vec![0u64; names.len()];
+    let mut stats = (0usize, 0usize);
+    for seed in 1..=n
+    {
+        let (v1, f1, mut all, label) = run_random(seed, false, &names);
+        stats.0 += v1.len(); stats.1 += v1.iter().filter(|b| **b).count();
+        let (v2, f2, _, _) = run_random(seed, true, &names);
+        if v1 != v2 || f1 != f2 { all.push(("B-build-C18".to_string(), format!("with table: {:?} {:?}; table erased: {:?} {:?}", v1, f1, v2, f2))); }
+        for (name, what) in all.iter() { let k = names.iter().position(|x| x == name).unwrap(); bad[k] += 1; if bad[k] <= 3 { println!("WITNESS {}-random :: {} :: {}", name, label, what); } }
+    }
+    for (k, name) in names.iter().enumerate() { println!("SUMMARY {}-random cases={} disagreements={}", name, n, bad[k]); }
+    println!("SUMMARY B-build-random-stats cases={} disagreements=0 invocations={} successful={}", n, stats.0, stats.1);
+}
